@@ -330,7 +330,7 @@ def gen_client(rng, cfg, cname, shadow_pw):
     # Everywhere else the client waits generously (a loaded machine must not look like a silent pgcat); the
     # comparison itself is timing-independent (the model gets exactly the bytes that were sent, in order).
     blocking = desc in ("edit:len_plus", "edit:len_huge", "edit:partial", "edit:silent", "edit:halflen", "badstartup:huge", "badstartup:short", "edit:len_min")
-    st["timeout_ms"] = 300 if blocking else 3000
+    st["timeout_ms"] = 1000 if blocking else 3000          # > connect_timeout (250 ms): pgcat's own pool validation must be able to finish
     st["raw_startup"] = raw.hex()
     st["auth_user"] = auth_user
     st["password"] = pw
@@ -383,7 +383,7 @@ def build_scenario(rng, idx, quick, tls=False):
         steps.append(cl["step"])
         if not cl.get("nopost"):
             steps.append({"op": "send", "c": cname, "msgs": [{"raw": post.hex()}]})
-            steps.append({"op": "recv", "c": cname, "until": "Z", "count": 1, "timeout_ms": 250})
+        steps.append({"op": "recv", "c": cname, "until": "Z", "count": 1, "timeout_ms": 1000})       # drain what is still to come
         steps.append({"op": "close", "c": cname})
         finished[0] += 1
         steps.append({"op": "wait_tasks", "n": finished[0], "label": cname, "timeout_ms": 8000})
